@@ -9,7 +9,7 @@ Base == [classes |-> {"A"}, methods |-> {"pt", "n"}, consts |-> {<<"int", 1, 1>>
          not |-> FALSE, boolConst |-> FALSE, ifexp |-> FALSE, aggs |-> {}, first |-> FALSE,
          index |-> FALSE, math |-> {}, colls |-> {<<"A", "bk1">>}, select |-> TRUE, where |-> TRUE,
          selectmany |-> FALSE, range |-> FALSE, rows |-> {"seq"}, topmid |-> {},
-         topwhere |-> FALSE, evwhere |-> FALSE, rootnames |-> {}, start |-> "top", boolAsNum |-> FALSE, mindone |-> 0, singles |-> {}]
+         topwhere |-> FALSE, evwhere |-> FALSE, rootnames |-> {}, start |-> "top", boolAsNum |-> FALSE, mindone |-> 0, singles |-> {}, userfns |-> {}]
 
 \* C01 core: the LINQ operators and their compositions
 ProfCore == [Base EXCEPT !.classes = {"A", "T"}, !.methods = {"pt", "n", "trks", "vals"},
@@ -59,6 +59,11 @@ ProfColl == [Base EXCEPT !.classes = {"A", "B", "T", "M", "I"}, !.methods = {"pt
                !.where = FALSE, !.rows = {"seq", "tuple"}, !.colls = AllBanks({"A", "B", "X1", "X2"}),
                !.singles = {<<"S", "bk1">>, <<"S", "bk3">>}]
 ProfCollZ == [ProfColl EXCEPT !.classes = {"A", "Z"}, !.colls = AllBanks({"Z"}) \cup {<<"A", "bk1">>}, !.singles = {}]
+
+\* C11: every supplied C++ function x actual arguments that contain the other parameters' names
+AllFnIds == {UserFns[i].id : i \in DOMAIN UserFns}
+ProfUserFn == [Base EXCEPT !.methods = {"pt", "eta", "a", "b", "n", "m"}, !.consts = {<<"int", 2, 1>>}, !.select = FALSE, !.where = FALSE,
+                 !.rows = {"seq"}, !.colls = {}, !.start = "perobj", !.userfns = AllFnIds, !.cmpops = {}]
 
 \* C04: partial operations (First, index, link dereference) under guards
 ProfFault == [Base EXCEPT !.methods = {"pt", "vals", "link"}, !.consts = {<<"int", 0, 1>>},
